@@ -353,8 +353,8 @@ func TxHeightFlag() int64 { return types.TxHeightFlag }
 func (g *Gen) EnvRaw(c EnvCfg) {
 	g.cfg = c
 	g.h, g.bt, g.now = c.Height, c.BlkTime, c.Now
-	g.do(fmt.Sprintf("env cap=%d shmax=%d per=%d last=%d minfee=%d maxrate=%d level=%s noexec=%s h=%d bt=%d now=%d",
-		c.Cap, c.ShMax, c.Per, c.Last, c.MinFee, c.MaxRate, b01(c.Level), b01(c.NoExec), c.Height, c.BlkTime, c.Now))
+	g.do(fmt.Sprintf("env cap=%d shmax=%d per=%d last=%d minfee=%d maxrate=%d level=%s noexec=%s para=%s h=%d bt=%d now=%d",
+		c.Cap, c.ShMax, c.Per, c.Last, c.MinFee, c.MaxRate, b01(c.Level), b01(c.NoExec), b01(c.Para), c.Height, c.BlkTime, c.Now))
 }
 
 // ClockBy advances the logical clock by d seconds.
